@@ -353,3 +353,87 @@ func vh_C12_assignconst() {
 	vAssert("C12.rule.assignconst.rejects-ill-typed", want || err != nil)
 	vAssert("C12.rule.assignconst.accepts-well-typed", !want || err == nil)
 }
+
+// ---- the compile pass itself: the checker is called and its verdict kept -------
+//
+// The real (*Interpreter).cfg runs on a hand-made expression over variables of
+// the real universe types: an ill-typed operand pair must make cfg return an
+// error (the call site of the checker, not only the checker).
+var vhCfgShape = 0 // 0: a OP b (binary), 1: a && b / a || b
+
+// vhAstNode makes a node the way the AST builder (ast.go, addChild) does.
+var vhAstIndex int64
+
+func vhAstNode(in *Interpreter, kind nkind, act action) *node {
+	var i interface{}
+	vhAstIndex++
+	n := &node{interp: in, index: vhAstIndex, kind: kind, action: act, val: &i, gen: builtin[act]}
+	n.start = n
+	return n
+}
+
+func vh_C12_cfg() {
+	in := vhNewInterp()
+	in.universe = initUniverse()
+	sc := in.universe.push(false)
+	i0 := vConcretizeInt(vNondetInt("t0"), 0, 16)
+	i1 := vConcretizeInt(vNondetInt("t1"), 0, 16)
+	sc.sym["a"] = &symbol{kind: varSym, index: sc.add(in.universe.getType(vhBasicNames[i0])), typ: in.universe.getType(vhBasicNames[i0])}
+	sc.sym["b"] = &symbol{kind: varSym, index: sc.add(in.universe.getType(vhBasicNames[i1])), typ: in.universe.getType(vhBasicNames[i1])}
+	a, b := vhAstNode(in, identExpr, aNop), vhAstNode(in, identExpr, aNop)
+	a.ident, b.ident = "a", "b"
+	op := vhRuleOp
+	n := vhAstNode(in, binaryExpr, vhBinActs[op])
+	if op == 17 {
+		n.kind = landExpr
+	} else if op == 18 {
+		n.kind = lorExpr
+	}
+	vhAdoptKids(n, a, b)
+	stmt := vhAstNode(in, exprStmt, aNop)
+	vhAdoptKids(stmt, n)
+	blk := vhAstNode(in, blockStmt, aNop)
+	vhAdoptKids(blk, stmt)
+	vReach("C12.cfg")
+	_, err := in.cfg(blk, sc, "main", "main")
+	want := vhGoAcceptsBinary(op, i0, i1)
+	vAssert("C12.cfg.rejects-ill-typed", want || err != nil)
+	vAssert("C12.cfg.accepts-well-typed", !want || err == nil)
+}
+
+// a.(T) through the real cfg: a of any basic type or interface{} (index 17), T basic.
+func vhGoAcceptsAssert(i0, i1 int) bool {
+	t0 := "interface{}"
+	if i0 < len(vhBasicNames) {
+		t0 = vhBasicNames[i0]
+	}
+	return vhGoTypesAccepts("package p\nvar a " + t0 + "\nvar _ = a.(" + vhBasicNames[i1] + ")\n")
+}
+
+func vmGoAcceptsAssert(i0, i1 int) bool { return i0 == 17 }
+
+func vh_C12_cfg_assert() {
+	in := vhNewInterp()
+	in.universe = initUniverse()
+	sc := in.universe.push(false)
+	i0 := vConcretizeInt(vNondetInt("t0"), 0, 17)
+	i1 := vConcretizeInt(vNondetInt("t1"), 0, 16)
+	t0 := in.universe.getType("interface{}")
+	if i0 < 17 {
+		t0 = in.universe.getType(vhBasicNames[i0])
+	}
+	sc.sym["a"] = &symbol{kind: varSym, index: sc.add(t0), typ: t0}
+	a, tn := vhAstNode(in, identExpr, aNop), vhAstNode(in, identExpr, aNop)
+	a.ident, tn.ident = "a", vhBasicNames[i1]
+	n := vhAstNode(in, typeAssertExpr, aTypeAssert)
+	vhAdoptKids(n, a, tn)
+	stmt := vhAstNode(in, exprStmt, aNop)
+	vhAdoptKids(stmt, n)
+	blk := vhAstNode(in, blockStmt, aNop)
+	vhAdoptKids(blk, stmt)
+	vReach("C12.cfg.assert")
+	_, err := in.cfg(blk, sc, "main", "main")
+	want := vhGoAcceptsAssert(i0, i1)
+	vAssert("C12.cfg.rejects-ill-typed", want || err != nil)
+	vAssert("C12.cfg.accepts-well-typed", !want || err == nil)
+}
